@@ -15,7 +15,7 @@ CONFIG = {
              '{absent, foreign dir, foreign dir with content, stale created dir, stale dir holding a foreign file, '
              'foreign file, stale output file, 255-byte name, 256-byte name} x prior state of the target {absent, '
              'foreign file, stale output of another function, cached output of the same function, stale dir, stale dir '
-             'with foreign content, foreign dir} x failure mode {ok, raise before write, raise after write, no create, '
+             'with foreign content, foreign dir, 256-byte own name} x failure mode {ok, raise before write, raise after write, no create, '
              'non-JSON return, non-sanitized JSON return} x {caught, uncaught} x an injected OSError at each os.mkdir / '
              'os.rename the call makes; monitors: path and absence of the target seen by the function, parents present, '
              'identity of the propagated exception, normalised return value, virtual view right after the call '
@@ -24,13 +24,13 @@ CONFIG = {
              'build_file calls judged; distinct_nontrivial = distinct (ancestor states, target state, mode, caught, '
              'fault position class)'),
     'exhaustive_layer': 'depth<=3 product of ancestor states x target states x modes x caught, incl. one fault run per mkdir/rename event',
-    'gates': ['combos', 'fault_runs', 'fault_mkdir', 'fault_rename', 'mode:ok', 'mode:raise_before',
+    'gates': ['mode:swallow', 'combos', 'fault_runs', 'fault_mkdir', 'fault_rename', 'mode:ok', 'mode:raise_before',
               'mode:raise_after', 'mode:nocreate', 'mode:nonjson', 'setup_failures', 'caught', 'uncaught'],
 }
 
 ANC = ['absent', 'fdir', 'fdirc', 'sdir', 'sdirf', 'ffile', 'sfile', 'n255', 'n256']
-TGT = ['absent', 'ffile', 'sfile_other', 'sfile_same', 'sdir', 'sdirf', 'fdir']
-MODES = ['ok', 'raise_before', 'raise_after', 'nocreate', 'nonjson', 'tuple']
+TGT = ['absent', 'ffile', 'sfile_other', 'sfile_same', 'sdir', 'sdirf', 'fdir', 'n256name']
+MODES = ['ok', 'raise_before', 'raise_after', 'nocreate', 'nonjson', 'tuple', 'swallow']
 KINDS = {'result', 'tree', 'query', 'issue', 'rollback_tree', 'exception_identity_root', 'tmp_leftover',
          'foreign_event', 'foreign_changed'}
 
@@ -67,7 +67,9 @@ def build_case(anc, tgt, mode, catch):
     """returns (setup_pre, prior_program_body, setup_post, program, target_rel)"""
     comps = [name_for(s, i) for i, s in enumerate(anc)]
     paths = ['/'.join(comps[:i + 1]) for i in range(len(comps))]
-    target = '/'.join(comps + ['t'])
+    # 'n256name': the target's own name is one byte too long for the file system, so the
+    # function cannot create it; with mode 'swallow' the function ignores its write error
+    target = '/'.join(comps + ['t' * 256 if tgt == 'n256name' else 't'])
     pre = []      # external steps before the prior build
     prior = []    # bf statements of the prior build
     post = []     # external steps after the prior build
@@ -103,7 +105,9 @@ def build_case(anc, tgt, mode, catch):
              'raise_after': [['write', ''], ['q', 'exists', target, 'M'], ['raise', 'F']],
              'nocreate': [['q', 'is_dir', paths[-1] if paths else '', 'M']],
              'nonjson': [['write', ''], ['ret', 'nonjson']],
-             'tuple': [['write', ''], ['ret', 'tuple']]}[mode]
+             'tuple': [['write', ''], ['ret', 'tuple']],
+             'swallow': [['q', 'exists', 'in0', 'M'], ['write', '', {'swallow': True}],
+                         ['q', 'is_dir', paths[-1] if paths else '', 'M']]}[mode]
     funcs = {'F': {'kind': 'bf', 'idx': 1, 'body': fbody},
              'G': {'kind': 'bf', 'idx': 2, 'body': [['write', 'old']]}}
     probes = [['q', 'exists', target, 'M'], ['q', 'is_file', target, 'M'], ['q', 'read_binary', target, 'H']]
@@ -215,6 +219,10 @@ def run_shard(sh):
             for tgt in TGT:
                 for mode in MODES:
                     for catch in (True, False):
+                        if tgt == 'n256name' and (not catch or mode in ('nonjson', 'tuple', 'raise_after')):
+                            continue    # which exception class leaves build_file is unspecified there
+                        if mode == 'swallow' and tgt != 'n256name':
+                            continue    # nothing to swallow: same as 'ok'
                         combos.append((anc, tgt, mode, catch))
     mine = combos[sh.idx::sh.n]
     rng.shuffle(mine)
@@ -230,5 +238,10 @@ def run_shard(sh):
     # depth 4: sampled
     vec4 = anc_vectors(4)
     while sh.time_left() > 0:
-        run_combo(sh, rng.choice(vec4), rng.choice(TGT), rng.choice(MODES), rng.random() < 0.5, rng)
+        tg, md, ct = rng.choice(TGT), rng.choice(MODES), rng.random() < 0.5
+        if tg == 'n256name':
+            md, ct = rng.choice(['ok', 'raise_before', 'nocreate', 'swallow']), True
+        elif md == 'swallow':
+            md = 'ok'
+        run_combo(sh, rng.choice(vec4), tg, md, ct, rng)
         sh.count('depth4_sampled')
